@@ -102,6 +102,53 @@ func checkC17(c *Ctx) {
 			}
 			return true
 		})
+		// the append happens on every path (a registration that takes another route - overwriting an entry in
+		// place, returning early - drops the record the sorter needs, e.g. the Before/After of the replaced entry)
+		// and nothing else writes the list
+		{
+			elemStore := false
+			var appendNode ast.Node
+			ast.Inspect(f.Body, func(n ast.Node) bool {
+				as, ok := n.(*ast.AssignStmt)
+				if !ok {
+					return true
+				}
+				for i, l := range as.Lhs {
+					if ix, ok := unparen(l).(*ast.IndexExpr); ok && fieldSel(info, ix.X, callbacksF) {
+						elemStore = true
+					}
+					if sel, ok := unparen(l).(*ast.SelectorExpr); ok && fieldSel(info, sel, callbacksF) && i < len(as.Rhs) {
+						if ce, ok := unparen(as.Rhs[i]).(*ast.CallExpr); ok {
+							if fid, ok := ce.Fun.(*ast.Ident); ok && fid.Name == "append" {
+								appendNode = as
+								continue
+							}
+						}
+						elemStore = true // the list is replaced by something that is not an append
+					}
+				}
+				return true
+			})
+			everyPath := appendNode != nil
+			if appendNode != nil {
+				paths, okp := p.EnumPaths(f, nil, 2000)
+				if !okp {
+					everyPath = false
+				}
+				for _, pr := range paths {
+					hit := false
+					for _, nd := range pr.Nodes {
+						if nd == appendNode || containsNode(nd, appendNode) {
+							hit = true
+						}
+					}
+					if !hit {
+						everyPath = false
+					}
+				}
+			}
+			rr.Check(everyPath && !elemStore, f.Name(), "appends on every path", f.Body.Pos(), "the record is appended on every path, the list is not written otherwise", mname+" has a path that does not append the new record to the processor's list, or writes the list in another way: the registration (with the Before/After side of the entry it supersedes) is lost to the sorter")
+		}
 		rr.Check(len(missing) == 0 && appended && retOK && nRet > 0, f.Name(), "records, appends, compiles", f.Body.Pos(), "sets "+strings.Join(want[mname], "/")+", appends itself, returns compile()", mname+" does not follow the registration protocol (missing fields: "+strings.Join(missing, ",")+"; appended to the list: "+boolStr(appended)+"; every return is compile(): "+boolStr(retOK)+"): the callback is not registered, or a sort conflict is not reported")
 		// processor-level delegate
 		pf := p.MethodDecl(pkgGorm, "processor", mname)
